@@ -12,13 +12,14 @@
    NP2Converter._split2shanks                             gather, shank_file
    spikeglx._get_savedChans_subset                        show_subset
    NP2Reconstructor._get_chans                            parse_subset
+   NP2Reconstructor._prepare_files (channel lists)        prepare_files
    NP2Reconstructor._reconstruct                          assign_cols, recon_window, reconstruct
    NP2Converter._writemetadata_ap                         meta_shank_ap
    NP2Reconstructor.write_metadata                        meta_recon
    (window generator: IBL.C17.Model.firstlast / nwin)
 *)
 From Coq Require Import ZArith NArith List Bool Lia Decimal DecimalN.
-From IBL.lib Require Import PyInt.
+From IBL.lib Require Import PyInt RunLib.
 From IBL.C17 Require Import Model.
 From IBL.C03 Require Export F32.
 Import ListNotations.
@@ -304,6 +305,27 @@ Definition reconstruct_w (win : Z) (files : list (list Z * list row)) : option (
       end
   end.
 Definition reconstruct := reconstruct_w RECON_WINDOW.
+
+(* NP2Reconstructor._prepare_files: every shank folder's channel list is read back from the
+   snsSaveChanSubset_orig string that _writemetadata_ap wrote (show_subset chns), and
+     assert all(chns[:-1] == np.where(chn_info["shank"] == sh)[0])
+   None = ValueError in _get_chans / AssertionError. *)
+Fixpoint prepare_files (labels : list Z) (split : list (Z * list Z * list row))
+  : option (list (list Z * list row)) :=
+  match split with
+  | [] => Some []
+  | (sh, chns, rows) :: rest =>
+      match parse_subset (show_subset chns) with
+      | None => None
+      | Some c =>
+          if zlist_eqb (removelast c) (where_eq labels sh)
+          then match prepare_files labels rest with
+               | Some r => Some ((c, rows) :: r)
+               | None => None
+               end
+          else None
+      end
+  end.
 
 (* ------------------------------------------------------------------ *)
 (* F. metadata (parsed dictionary, insertion ordered)                   *)
